@@ -110,6 +110,15 @@ def run (a : A) : List Act → Option A
 
 def init (max : Nat) : A := { max := max }
 
+/-- `Channel.open()` called by the application on an existing, closed channel object (a re-open):
+    CLOSED → OPENING and Channel.Open is sent for the object's number.  The method does not look at
+    the connection's registry (tie: `Props/C10.lean`, `skel_Channel_open`), so this is NOT one of the
+    actions of `step`: see `Props/C10.lean`, "Re-opening a closed channel object". -/
+def reopen (a : A) (o : Nat) : Option A :=
+  match a.objs[o]? with
+  | some ob => if ob.state = Gen.Const.stateClosed then some (setState a o Gen.Const.stateOpening) else none
+  | none => none
+
 def live (ob : Obj) : Prop := ob.state ≠ Gen.Const.stateClosed
 
 end Amqp.Alloc
